@@ -26,7 +26,7 @@ import (
 var zenc, _ = zstd.NewWriter(nil)
 
 func dig(h string, s int64) *pb.Digest { return &pb.Digest{Hash: h, SizeBytes: s} }
-func (b blob) dg() *pb.Digest           { return dig(b.hash, b.size) }
+func (b blob) dg() *pb.Digest          { return dig(b.hash, b.size) }
 func mustMarshal(m proto.Message) []byte {
 	b, err := proto.Marshal(m)
 	if err != nil {
@@ -155,6 +155,8 @@ func (d *drv) warmup() {
 // ---- local upstream for FetchBlob
 
 type upstream struct {
+	mu      sync.Mutex
+	data    []byte // what /data serves
 	srv     *httptest.Server
 	release chan struct{}
 	once    sync.Once
@@ -163,7 +165,16 @@ type upstream struct {
 func newUpstream() *upstream {
 	u := &upstream{release: make(chan struct{})}
 	mux := http.NewServeMux()
-	mux.HandleFunc("/ok", func(w http.ResponseWriter, r *http.Request) { _, _ = w.Write([]byte("hello asset " + r.Header.Get("X-Tag"))) })
+	mux.HandleFunc("/ok", func(w http.ResponseWriter, r *http.Request) {
+		_, _ = w.Write([]byte("hello asset " + r.Header.Get("X-Tag")))
+	})
+	mux.HandleFunc("/data", func(w http.ResponseWriter, r *http.Request) {
+		u.mu.Lock()
+		b := u.data
+		u.mu.Unlock()
+		w.Header().Set("Content-Length", fmt.Sprint(len(b)))
+		_, _ = w.Write(b)
+	})
 	mux.HandleFunc("/empty", func(w http.ResponseWriter, r *http.Request) {})
 	mux.HandleFunc("/404", func(w http.ResponseWriter, r *http.Request) { http.Error(w, "no", 404) })
 	mux.HandleFunc("/500", func(w http.ResponseWriter, r *http.Request) { http.Error(w, "no", 500) })
